@@ -133,4 +133,9 @@ def _borrowed_c12(an: Analysis) -> None:
     from . import c12
 
     # C12.5: an entry stored already expired is deleted by the next caller, who starts a second invocation while the first is in flight
-    borrow(an, c12.check, {"C12.7": "C13.5", "C12.5": "C13.6", "C12.4": "C13.7"}, keep=lambda f: "_AsyncCache" in f.at)
+    borrow(an, c12.check, {"C12.7": "C13.5", "C12.5": "C13.6", "C12.4": "C13.7", "C12.1": "C13.9"}, keep=lambda f: "_AsyncCache" in f.at)
+    from . import c18
+
+    # C18.7: mimic_function never overwrites what the wrapper object already holds - the cache object's own _function / _cached
+    # would otherwise be replaced by those of a wrapper it decorates (or that decorates it): calls bypass the shared invocation
+    borrow(an, c18.check, {"C18.7": "C13.10"})
